@@ -228,3 +228,8 @@ def REPLAY_MONITOR(pid, path):
     import re
     m = re.match(r"%s-([A-Za-z0-9]+)-" % pid, os.path.basename(path))
     return m.group(1) if m else {"C01": "ProducerTrace", "C04": "ProducerTrace", "C02": "SyncTrace", "C05": "SyncTrace", "C03": "SyncTrace", "C09": "SyncTrace", "C10": "QueueTrace", "C11": "FlowTrace", "C17": "LazyTrace", "C13": "WorldTrace", "C14": "StoreTrace", "C15": "KVTrace", "C20": "BasedTrace", "C16": "ProxyTrace", "C19": "KeyTrace", "C18": "ConfigTrace", "C12": "WireTrace", "C06": "SubmitTrace", "C07": "SubmitTrace", "C08": "SubmitTrace"}[pid]
+
+
+# invariant-name prefixes each check reports (a replay uses the same set)
+REPLAY_PREFIXES = {"C04": ["C04.", "C01."], "C05": ["C05.", "C02."], "C09": ["C09.", "C02.Halted", "C02.Converged", "C02.AppliedWhatArrived"],
+                   "C13": ["C13.", "C01.", "C06.", "C07."]}
